@@ -33,6 +33,10 @@ def run(check: Check, repo: Repo, tier: str) -> None:
     L.ws_agree(check, repo, ["utilities.print_schema", "language.block_string", "language.printer"])
     K.regex_fullmatch(check, repo, ["type.scalars", "utilities.value_to_literal", "utilities.ast_from_value"])
     K.sibling_details(check, repo)
+    K.int_range_table(check, repo)
+    K.float_text(check, repo)
+    D.default_verbatim(check, repo)
+    L.list_separators(check, repo)
     from rules import exec_rules as X
     X.attr_memo(check, repo, [repo.mod(m) for m in ("utilities.print_schema", "utilities.get_default_value_ast", "utilities.value_to_literal", "utilities.coerce_input_value", "utilities.extend_schema", "utilities.build_ast_schema")])
     check.floor("ATTR-MEMO", 1, "object-attribute memos reachable from schema printing / extension")
